@@ -52,6 +52,15 @@ CHECKS['C12'] = dict(level=MC, engine='Handshake', design='DESIGN.md §3 C12; ch
    note='Old server generations are emulated by the scripted peer. Time bounds use generous margins (loaded machine); anything that is not a clean pass is executed twice. One known finding (protocol 2 has no acknowledgement) is classified and skipped.',
    technique='TLA+ protocol spec + TLC exhaustive over scenario space; scenario replay on real newSession / scripted peer with result and resource-census comparison')
 
+CHECKS['C18'] = dict(level=MC, engine='EventConn', design='DESIGN.md §3 C18; checks/eventconn_NOTES.md',
+   text='EventConn.tla models the write loop over kernel results (partial writes, EAGAIN), the kernel FIFO and the onReadReady/maybeExpandReadBuffer/commitRead window (double, 1 MiB callback threshold, 4 MiB shrink, scaled and real literals); EventConnWriters.tla the writer protocol (writing flag CAS of wakeUpPeer/hotRestart fast paths, sendCh, send loop, notifyContinueWriteCh). TLC checks stream integrity, callback-argument = unconsumed ++ new, NoInterleave and send-loop progress exhaustively. Spec -> code: every edge of the window graphs is replayed on the real connEventHandler over a datagram socketpair (each read returns exactly the size TLC chose) with buffer length, offsets and consumed compared at every step; writer-protocol cover paths are executed on the real wakeUpPeer/hotRestart/send with gates at every atomic access. Code -> spec: real write/writev runs against a tiny send buffer are logged and validated by Trace_EventConn. End-to-end runs on the real epoll loop (unix+tcp, small socket buffers, concurrent senders, >13 MiB bursts) with event-boundary and exactly-once-in-order oracles.',
+   note='The kernel chooses write sizes (observed, not chosen); the -race dispatcher variant is exercised in the thorough tier only.',
+   technique='TLA+ specs of the IO window and writer protocol + TLC exhaustive; edge-cover replay on the real handler with state conformance; trace validation of real write loops')
+CHECKS['C19'] = dict(level=MC, engine='NetListener', design='DESIGN.md §3 C19; checks/netlistener_NOTES.md',
+   text='NetListener.tla models the net.Listener/net.Conn adapter (per-session accept loop, WaitGroup reference counts, backlog, closeCh, wrapper and stream state, byte counts, one FIFO per direction) with call results as action parameters; TLC checks exactly-once surfacing, io.Reader/io.Writer contracts, Accept/Read release on close and "session ends once the listener and its conns are closed" exhaustively (sync and interleaved configurations). The real ListenWithBacklog, sessions, streams and epoll loop are walked through an edge cover of the spec graph (Go select nondeterminism matched against every alternative the spec allows); return values, completions of parked Accept/Read and a structural projection (closed flag, backlog, session table, WaitGroup counter, stream states, pending bytes) are compared per step; independent ledger oracles check bytes, order, deadlines, exactly-once surfacing and session end.',
+   note='Real sockets and the real event loop: under heavy machine load a path is abandoned (not judged) after repeated 1 s handshake time-outs. One known finding (late data re-creates a closed stream) is classified and skipped.',
+   technique='TLA+ spec with result-parameterised actions + TLC exhaustive; edge-cover replay on the real listener/sessions with per-step conformance and ledger oracles')
+
 PENDING = {}
 
 def main():
